@@ -9,12 +9,13 @@ RULE = ('score tensors N(1-8) x C(2-40) x T(1-60) built from a chosen arg-max pa
         'margin >= 1e-2; plus batches pushed through the real PytorchEngineLineOCR.run_ocr with a stub net. '
         'non-trivial = some line has a non-empty transcription with a merged repeat or a dropped blank; distinct = hash of the arg-max paths Alphabets of 256-1000 classes; near ties (one ulp apart, no conversion between matrix and decoders) and raw scores around -1000 / +800; the previous run_ocr result re-checked after the next call. Alphabets up to 70000 classes; an engine whose network emits nearly equal class scores.')
 RULE += ' Round 6: Lines of 4094-9000 frames; a symbol ending in U+0000; the separator re-assigned on a live decoder; raw scores in the thousands.'
+RULE += ' Round 9: One engine call over a batch of more than 2^25 scores.'
 RULE += ' Round 7: Single-precision scores beyond 2^24 with the batch maximum in a first frame; character tables as strings and arrays; Greek small alphabets.'
 ASSUMPTIONS = ['for exact arg-max ties (class exact_ties: quantised outputs) only the agreement of the engine decoder and the stand-alone decoder is required (the statement gives no tie rule for the reference collapse); frames of engine output with margin < 1e-4 are skipped as ambiguous elsewhere',
                'blank is the last class; 3-D tensors only (the 2-D branch of the engine decoder is not reachable from the repository)']
 N = {'quick': 5000, 'thorough': 300000}
 CLASSES = ['random', 'lead_trail_blank', 'all_blank', 'repeats_split', 'first_nonblank', 'last_class', 'identical_rows', 'different_rows', 'single_frame', 'engine', 'exact_ties', 'large_alphabet', 'near_ties', 'engine_near_ties', 'long_lines', 'huge_scores']
-REQUIRED = ['filtration_lines_with_a_string_or_array_table', 'tensors_with_scores_in_the_thousands', 'lines_over_4096_frames', 'separator_reassigned_on_a_live_decoder', 'near_tie_engine_lines', 'alphabets_over_256_classes', 'near_tie_lines', 'earlier_run_ocr_results_rechecked', 'separator_lines', 'run_ocr_logits_compared', 'tie_lines', 'engine_lines', 'standalone_lines', 'filtration_lines', 'run_ocr_lines']
+REQUIRED = ['batches_of_more_than_2^25_scores', 'filtration_lines_with_a_string_or_array_table', 'tensors_with_scores_in_the_thousands', 'lines_over_4096_frames', 'separator_reassigned_on_a_live_decoder', 'near_tie_engine_lines', 'alphabets_over_256_classes', 'near_tie_lines', 'earlier_run_ocr_results_rechecked', 'separator_lines', 'run_ocr_logits_compared', 'tie_lines', 'engine_lines', 'standalone_lines', 'filtration_lines', 'run_ocr_lines']
 
 
 def setup(ctx):
@@ -339,3 +340,32 @@ def check(case, mon, ctx):
             mon.violation('standalone-greedy', {'site': 'symbol_separator=%r, multi-character symbols' % sep, 'got': got, 'expected': sep.join(syms), 'path': am})
     if nontriv:
         mon.mark_nontrivial({'paths': case['am'], 'C': C})
+
+
+def extra(mon, ctx):
+    """one engine call over a batch of more than 2^25 scores (several very long lines over a large alphabet): every line of the batch gets its greedy transcription"""
+    if ctx.shard != 0:
+        return
+    torch = ctx.torch
+    rng = np.random.default_rng([ctx.seed, 4, 2025])
+    for N_, C, T in ((3, 1100, 10200), (7, 300, 16000)):
+        assert N_ * C * T > 2 ** 25
+        chars = [chr(0x4e00 + k) for k in range(C - 1)]
+        sc = torch.zeros((N_, C, T), dtype=torch.float32)
+        paths = rng.integers(0, C, size=(N_, T))
+        paths[rng.random((N_, T)) < 0.4] = C - 1
+        idx = torch.from_numpy(paths)[:, None, :]
+        sc.scatter_(1, idx, 5.0)
+        mon.cur_desc = {'leg': 'batch of more than 2^25 scores', 'shape': [N_, C, T]}
+        got = ctx.poe.greedy_decode_ctc(sc, chars + ['\u200b'])
+        del sc
+        mon.count('batches_of_more_than_2^25_scores')
+        mon.count('extra_evaluations')
+        exp = [collapse(paths[n], C - 1, chars) for n in range(N_)]
+        if len(got) != N_:
+            mon.violation('engine-greedy', {'site': 'large batch', 'shape': [N_, C, T], 'lines_in': N_, 'transcriptions_out': len(got)})
+            continue
+        for n in range(N_):
+            mon.count('engine_lines')
+            if got[n] != exp[n]:
+                mon.violation('engine-greedy', {'site': 'large batch', 'shape': [N_, C, T], 'line': n, 'got_len': len(got[n]), 'expected_len': len(exp[n])})
